@@ -28,29 +28,46 @@ theorem C13_insert_sorted (l : FIdx) (e : Entry) (h : Desc l) :
 theorem C13_reverse (r : FIdx) (h : Desc r) : r.reverse.Pairwise (fun a b => Val.lt b.1 a.1 = false) := by
   rw [List.pairwise_reverse]; exact h
 
-/-- Limit: the collection loop appends at most `limit` objects, in iteration order:
-    with every object readable, exactly the first `min limit n` -/
-theorem C13_limit (c : Coll) (us : List Nat) (lim : Nat) (out : List Obj)
-    (hall : ∀ c' : Coll, ∀ u ∈ us, ∃ o, (c'.get u).2 = .ok o) :
-    (Coll.collectLoop c us lim out).2.2.1.length = out.length + min lim us.length := by
-  induction us generalizing c lim out with
-  | nil => simp [Coll.collectLoop]
-  | cons u us ih =>
-    obtain ⟨o, ho⟩ := hall c u (by simp)
-    unfold Coll.collectLoop
-    match hg : c.get u with
-    | (c1, .ok o1) =>
-      simp only
-      by_cases hl : lim > 0
-      · simp only [hl, if_true]
-        rw [ih c1 (lim - 1) (out ++ [o1]) (fun c' u' hu' => hall c' u' (by simp [hu']))]
-        simp only [List.length_append, List.length_cons, List.length_nil]
-        omega
-      · simp only [hl, if_false]
-        have : lim = 0 := by omega
-        simp [this]
-    | (c1, .err e) => rw [hg] at ho; cases ho
-    | (c1, .panic) => rw [hg] at ho; cases ho
+/-- Limit: on a consistent collection, when every member can be read, the collection loop appends
+    exactly the first `min limit n` objects of the iteration order (their current content) and
+    reports no error; the limit is consumed by what was returned.
+    (An earlier version quantified its readability hypothesis over EVERY collection state, which
+    only the empty list satisfies: found by the non-vacuity witnesses, Props/Witness.lean.) -/
+theorem C13_limit {c : Coll} {l : Loaded} (h : Inv' c l) (us : List Nat) (lim : Nat) (out : List Obj)
+    (hall : ∀ u ∈ us, (c.view u).isSome) :
+    (Coll.collectLoop c us lim out).2.2.1 = out ++ (us.take lim).filterMap c.view ∧
+    (Coll.collectLoop c us lim out).2.2.1.length = out.length + min lim us.length ∧
+    (Coll.collectLoop c us lim out).2.2.2 = none ∧
+    (Coll.collectLoop c us lim out).2.1 = lim - us.length := by
+  obtain ⟨c', hc, _, _, _⟩ := collectLoop_spec (l := l) us (c := c) lim out h
+  have hr : readablePrefix c us = us.length := readablePrefix_all hall
+  rw [hc, hr]
+  have hlen : ((us.take lim).filterMap c.view).length = min lim us.length := by
+    have : ∀ (ws : List Nat), (∀ u ∈ ws, (c.view u).isSome) → (ws.filterMap c.view).length = ws.length := by
+      intro ws
+      induction ws with
+      | nil => intro _; rfl
+      | cons w ws ih =>
+        intro hw
+        have hw1 := hw w (by simp)
+        cases hv : c.view w with
+        | none => rw [hv] at hw1; cases hw1
+        | some o =>
+          rw [List.filterMap_cons, hv]
+          simp only [List.length_cons]
+          rw [ih (fun u hu => hw u (List.mem_cons_of_mem _ hu))]
+    rw [this _ (fun u hu => hall u (List.mem_of_mem_take hu)), List.length_take]
+  have ht : us.take (min lim us.length) = us.take lim := by
+    by_cases hl : lim ≤ us.length
+    · rw [Nat.min_eq_left hl]
+    · rw [Nat.min_eq_right (by omega), List.take_of_length_le (Nat.le_refl _), List.take_of_length_le (by omega)]
+  refine ⟨?_, ?_, ?_, rfl⟩
+  · show out ++ (us.take (min lim us.length)).filterMap c.view = out ++ (us.take lim).filterMap c.view
+    rw [ht]
+  · show (out ++ (us.take (min lim us.length)).filterMap c.view).length = _
+    rw [ht, List.length_append, hlen]
+  · show (if us.length = us.length ∨ lim < us.length then none else some Err.notFound) = none
+    simp
 
 /-- AssignIndex returns the values of the field index, in index order, one per indexed object -/
 theorem C13_assignIndex {ix : ObjIndex} (h : ix.WF) {fi : FieldIdx} (hfi : fi ∈ ix.fields) :
